@@ -5,13 +5,13 @@ from vf.qvc.contracts import contract
 M = "qubovert.sat._satisfiability:"
 OPK = ["label", "termdict", "model:PUBO", "model:QUBO", "model:PCBO"]
 
-contract(M + "BUFFER", props=["C07", "C06"],
+contract(M + "BUFFER", props=["C07", "C06", "C19"],
          instances=[{"x": k} for k in OPK + ["model:PUBOMatrix", "model:QUBOMatrix"]],
          requires=["opsvalid((x,))"],
          returns=lambda env, eng: "fresh:model:" + (env["x"].cls.name if hasattr(env["x"], "cls") else "PUBO"),
          ensures=["bden(result) == opden(x)", "wf(result)", "isfresh(result)"])
 
-contract(M + "NOT", props=["C07", "C06"],
+contract(M + "NOT", props=["C07", "C06", "C19"],
          instances=[{"x": k} for k in OPK],
          requires=["opsvalid((x,))"],
          returns=lambda env, eng: "fresh:model:" + (env["x"].cls.name if hasattr(env["x"], "cls") else "PUBO"),
@@ -45,7 +45,7 @@ def _restype(env, eng):
 
 
 for name, f in (("AND", "andf"), ("OR", "orf"), ("XOR", "xorf")):
-    contract(M + name, props=["C07", "C06"],
+    contract(M + name, props=["C07", "C06", "C19"],
              instances=_tuples(3),
              requires=["opsvalid(variables)", "all01(variables)"],
              returns=_restype,
@@ -54,7 +54,7 @@ for name, f in (("AND", "andf"), ("OR", "orf"), ("XOR", "xorf")):
              note="arities 0..3 with mixed operand kinds; the recursive call is used by contract")
 
 for name, f in (("NAND", "andf"), ("NOR", "orf"), ("XNOR", "xorf")):
-    contract(M + name, props=["C07", "C06"],
+    contract(M + name, props=["C07", "C06", "C19"],
              instances=_tuples(3),
              requires=["opsvalid(variables)", "all01(variables)"],
              returns=_restype,
